@@ -93,11 +93,12 @@ func main() {
 	sliceops := genSliceOps(*repo)
 	resolverSrc := genResolverSrc(*repo)
 	unmarshalSrc := genUnmarshalSrc(*repo)
+	goLiteSrc := genGoLite(*repo)
 	if err := os.MkdirAll(*out, 0o755); err != nil {
 		fmt.Fprintln(os.Stderr, "srcgen:", err)
 		os.Exit(1)
 	}
-	for name, text := range map[string]string{"Consts.v": consts, "Chain.v": chain, "Effects.v": effects, "Bounds.v": bounds, "SliceOps.v": sliceops, "ResolverSrc.v": resolverSrc, "UnmarshalSrc.v": unmarshalSrc} {
+	for name, text := range map[string]string{"Consts.v": consts, "Chain.v": chain, "Effects.v": effects, "Bounds.v": bounds, "SliceOps.v": sliceops, "ResolverSrc.v": resolverSrc, "UnmarshalSrc.v": unmarshalSrc, "GoLiteSrc.v": goLiteSrc} {
 		path := filepath.Join(*out, name)
 		old, err := os.ReadFile(path)
 		if err == nil && string(old) == text {
